@@ -17,6 +17,48 @@ def S(stream, quick, thorough, **kw):
     return d
 
 PROPS = {
+    "C09": {
+        "file": "C09.v",
+        "streams": [S("cache", 250, 4000, focus="C09")],
+        "claim": "Theorems over CacheModel's classic-policy shard for every operation sequence, capacity and cost vector: the LRU list is sorted by last read/write stamp and the victim has the minimum stamp; FIFO by insertion stamp regardless of reads and updates; LFU bucket frequency = 1 + reads since the last write and any victim accepted from the implementation lies in the minimum bucket; Exists/Keys/misses/expired lookups never change the stamps; the shard invariant, history ledger and notification log hold along every history. Tied to /repo by T-trace on the real cache (virtual clock, LFU pick recorded as an oracle event) and an independent Go monitor that re-derives the policy order from the history.",
+        "note": "Trusted: Coq kernel, extraction, driver, harness and hooks (virtual clock, LFU-victim event). Pointer surgery of the intrusive list and Go map iteration inside the LFU bucket are modelled (list / oracle), not verified.",
+        "assumptions": ["LFU's choice among equally infrequent entries is an oracle input checked to lie in the minimum bucket", "shard placement of keys is taken from the implementation"],
+    },
+    "C13": {
+        "file": "C13.v",
+        "streams": [S("http", 300, 4000, focus="C13")],
+        "claim": "Theorems over HttpModel: directive detection is sound w.r.t. the RFC 9111 reading of Cache-Control for every spelling, position, spacing, argument form and field-line arrangement (over-splitting inside quoted strings only errs towards not caching); strconv.Atoi and the max-age clamp; the default policy's decision table (stored iff every gate passes; max-age, else future Expires, else default TTL); the capture state machine (streamed iff flushed/hijacked/101; too large iff bytes > limit, exactly); non-cacheable methods bypass. Tied to /repo by handler scripts run behind a real loopback server through the real middleware, by the exported DefaultCachePolicy on generated and malformed values, and by an independent Go oracle for 'must not be cached'.",
+        "note": "Trusted: Coq kernel, extraction, driver, harness, httpcache hooks; net/http server and client behaviour is a reference model validated by the same correspondence; time.Parse for Expires is an oracle. Non-ASCII header bytes are outside the theorems (generated only in the malformed stream).",
+        "assumptions": ["Expires parsing is an oracle input (Some ttl / None)", "header keys and values are byte strings; theorems about case folding are for ASCII"],
+    },
+    "C14": {
+        "file": "C14.v",
+        "streams": [S("http", 300, 4000, focus="C14")],
+        "claim": "Theorems over HttpModel's capturing writer composed with a reference model of net/http's server-side writer: for every handler script (header edits, implicit status, several writes, 1xx first, edits after commit, superfluous WriteHeader) the stored status/body/header snapshot equals what the client was sent (plus the MISS marker), and the client view of a replay equals the client view of the origin response outside ignored headers and markers; HIT/MISS markers. Isolation from later mutation of maps/slices is decided by the harness (it mutates every slice the handler kept between two hits) since value-semantics models cannot express aliasing.",
+        "note": "Trusted: as C13. The aliasing clause is exploration-level (harness attack), stated as partial.",
+        "assumptions": ["responses whose status allows no body (204/304) are compared at the client view only"],
+    },
+    "C15": {
+        "file": "C15.v",
+        "streams": [S("trie", 300, 5000)],
+        "claim": "Theorems over HttpTrie: for every raw operation stream the path index equals the abstract map normalized-path -> key -> identity, exact and wildcard matching are segment-wise, equivalent spellings coincide, removal by identity ignores stale notifications, pruning leaves no empty branch and never loses a live branch. Tied to /repo by T-trace on the real patternIndex (exported wrapper). The clause about index/cache agreement under interleavings of stores, invalidations and late notifications is decided by deterministic interleaving probes through the split-store hooks (known finding F5: overlapping stores of one key).",
+        "note": "Trusted: Coq kernel, extraction, driver, harness, httpcache hooks. The index-vs-cache interleaving clause is partial (probes + known finding), not a theorem yet.",
+        "assumptions": ["keys and identities are integers in the model; Go map iteration order is abstracted by comparing sorted answers"],
+    },
+    "C02": {
+        "file": "C02.v",
+        "streams": [S("conc", 40, 600, focus="C02", timeout=2400)],
+        "claim": "A Coq-verified (sound and complete) linearizability checker for per-key histories against the lossy register, with the three consequences named in the property as theorems; real concurrent histories of the cache (all policies, tiny capacities and rings) are cut at quiescent points and decided by the extracted checker on every run. Table level: theorems on an LTS of lock-free lookups against the single writer at the granularity of individual atomic loads/stores (hit = item of that key alive during the lookup; miss = key unpublished at some instant; never another key's value). The strict statement is machine-refuted inside one in-flight re-insert (present/absent/present, finding F10), so the property is claimed with that exception.",
+        "note": "Trusted: Coq kernel, extraction, driver, harness. sync/atomic is taken as sequentially consistent; Go's scheduler decides which interleavings the stress run explores (evidence, not proof). Cache-level trace inclusion (locks + table) is argued in DESIGN.md, not mechanised.",
+        "assumptions": ["values written are pairwise distinct (harness guarantees it)", "windows longer than 14 overlapping calls end a key's chain (counted in the evidence)"],
+    },
+    "C11": {
+        "file": "C11.v",
+        "streams": [S("conc", 40, 600, focus="C11", timeout=2400, race=True)],
+        "claim": "Table-level theorems on the atomic-step LTS: a lookup's key and value are fields of one item object created by one write (items are never mutated), the structural invariant holds at every instant including between the two stores of an operation, replaced arrays are frozen, lookups terminate within n*(w+1) loads. Tied to /repo by free-running stress with multi-word checksummed values (torn values, TTL/value pairing), panics recovered as violations, the internal-structure checker at quiescence, one-writer/many-reader races on the real table; the thorough tier runs the same under the Go race detector.",
+        "note": "Trusted: as C02. Data-race freedom in the Go memory-model sense is not expressible in the model: the race detector in the thorough tier is a search tool, so that clause is partial.",
+        "assumptions": ["sync/atomic operations are single sequentially consistent steps"],
+    },
     "C12": {
         "file": "C12.v",
         "streams": [S("ht", 400, 6000)],
